@@ -284,7 +284,7 @@ type c17Path struct {
 	priv   int
 }
 
-var c17Leaves = []string{"str", "mapss", "ints", "array", "nilptr", "int"}
+var c17Leaves = []string{"str", "mapss", "ints", "array", "nilptr", "int", "mapsi"}
 var c17Nest = []string{"mapany", "sliceany", "struct", "ptr", "ptrptr", "mapstruct", "ptrmap", "ptrslice"}
 
 // build value from a descriptor like "mapany>sliceany>str"
@@ -297,7 +297,9 @@ func c17Build(desc string) any {
 	case "int":
 		v = 42
 	case "mapss":
-		v = map[string]string{"k": "ms", "Field": "fs"}
+		v = map[string]string{"k": "ms", "Field": "fs", "0": "zero-key"}
+	case "mapsi": // a typed map whose keys look like numbers
+		v = map[string]int{"k": 5, "0": 6, "1": 7, "-1": 8}
 	case "ints":
 		v = []int{7, 8}
 	case "array":
@@ -309,7 +311,7 @@ func c17Build(desc string) any {
 	for i := len(parts) - 2; i >= 0; i-- {
 		switch parts[i] {
 		case "mapany":
-			v = map[string]any{"k": v, "tag": "maptag"}
+			v = map[string]any{"k": v, "tag": "maptag", "1": "one-key"}
 		case "sliceany":
 			v = []any{v, "second"}
 		case "struct":
@@ -327,7 +329,7 @@ func c17Build(desc string) any {
 			pp := &sl
 			v = &pp
 		case "mapstruct":
-			v = map[string]c17Path{"k": {Field: v}}
+			v = map[string]c17Path{"k": {Field: v}, "0": {Field: "zero-key"}}
 		}
 	}
 	return v
